@@ -222,10 +222,11 @@ def _entry_region(ex, cc, ent):
 class IterDom:
     """Sequence being iterated: length term and element-at-index function."""
 
-    def __init__(self, n, at, kind):
+    def __init__(self, n, at, kind, seq=None):
         self.n = n
         self.at = at
         self.kind = kind
+        self.seq = seq        # the list being iterated (available to invariants as `_iter`)
 
 
 def iter_domain(ex, s: ast.For, st):
@@ -252,7 +253,7 @@ def iter_domain(ex, s: ast.For, st):
         ex.oblige(st, "safety", f"none-iter@{s.lineno}", z3.Not(lv.terms[0]), s, "iteration over None")
         lv = T.opt_inner(lv)
     if isinstance(lv.ty, T.List):
-        return IterDom(ex.h.list_len(st, lv.t, lv.ty), lambda i, st2: ex.h.list_get(st2, lv.ty, lv.t, i), "list")
+        return IterDom(ex.h.list_len(st, lv.t, lv.ty), lambda i, st2: ex.h.list_get(st2, lv.ty, lv.t, i), "list", seq=lv)
     if isinstance(lv.ty, T.Ref):
         itf = REG.classes.get(lv.ty.cls, {}).get("iter")
         if itf:
@@ -485,6 +486,8 @@ def _for_with_invariant(ex, s, st, dom, spec, ordn):
         env = dict(state.env)
         env[ivar] = T.mk_int(idx)
         env["_n"] = T.mk_int(dom.n)
+        if dom.seq is not None:
+            env["_iter"] = dom.seq
         return [(lab, ex.spec_bool(state, src, env, old_state=ex.entry_state)) for lab, src in invs]
 
     # init
